@@ -172,6 +172,19 @@ def oneof_with_switch() -> Spec:
     ], "A", "O")
 
 
+def oneof_with_switch_deep() -> Spec:
+    """Switch inside a one-of candidate; the failure sits ABOVE the selected case (X0 -> X)."""
+    return Spec("oneof_with_switch_deep", [
+        Node("A"),
+        Node("S", (("a", In("A")),), labels=("l1", "l2")),
+        Node("X0", (("a", In("A")),), kinds=F), Node("X", (("x0", In("X0")),)),
+        Node("Y", (("a", In("A")),), kinds=F),
+        Node("C1", (("v", Sw("S", (("l1", "X"), ("l2", "Y")), "sw")),)),
+        Node("C2", (("a", In("A")),)),
+        Node("O", (("v", OneOf(("C1", "C2"))),)),
+    ], "A", "O")
+
+
 def oneof_shared_dep() -> Spec:
     """A fallible node needed by a one-of candidate and by the main pipeline."""
     return Spec("oneof_shared_dep", [
@@ -229,6 +242,21 @@ def rec_outside_reader(max_iter: int = 1) -> Spec:
     ], "S", "O")
 
 
+def rec_outside_reader_slow(max_iter: int = 1) -> Spec:
+    """The outside reader R also waits for an independent chain Q -> Q2 -> Q3 (deeper than the subgraph, so the
+    engine launches D before R): whether R sees iteration 1 or 2 of M depends on when Q3 finishes (the
+    schedule-dependence named in the C01 record)."""
+    return Spec("rec_outside_reader_slow", [
+        Node("A"),
+        Node("S", (("a", In("A")),), takes_ad=True),
+        Node("M", (("s", In("S")),)),
+        Node("D", (("m", In("M")),), recurrent=True, want_max=max_iter, use_default=True),
+        Node("Q", (("a", In("A")),)), Node("Q2", (("q", In("Q")),)), Node("Q3", (("q", In("Q2")),)),
+        Node("R", (("m", In("M")), ("q", In("Q3")))),
+        Node("O", (("d", Rec("S", "D", max_iter)), ("r", In("R")))),
+    ], "A", "O")
+
+
 def rec_two_scopes(max_iter: int = 1) -> Spec:
     """Destination consumed through the mark and through a switch case scope."""
     return Spec("rec_two_scopes", [
@@ -242,15 +270,15 @@ def rec_two_scopes(max_iter: int = 1) -> Spec:
 
 
 def rec_with_switch(max_iter: int = 2) -> Spec:
-    """Switch inside the recurrent subgraph, non-selected case fallible."""
+    """Switch inside the recurrent subgraph; case X may fail (also when it is not the selected one)."""
     return Spec("rec_with_switch", [
         Node("S", takes_ad=True),
         Node("W", (("s", In("S")),), labels=("l1", "l2"), label_slots=2),
-        Node("X", (("s", In("S")),), kinds=F, kind_slots=2), Node("Y", (("s", In("S")),), kinds=F, kind_slots=2),
+        Node("X", (("s", In("S")),), kinds=F, kind_slots=2), Node("Y", (("s", In("S")),)),
         Node("C", (("v", Sw("W", (("l1", "X"), ("l2", "Y")), "sw")),)),
         Node("D", (("c", In("C")),), recurrent=True, want_max=max_iter + 1, use_default=True),
         Node("O", (("d", Rec("S", "D", max_iter)),)),
-    ], "S", "O")
+    ], "S", "O", dur_nodes=("W", "X", "Y", "D"))
 
 
 def rec_with_oneof(max_iter: int = 1) -> Spec:
@@ -311,6 +339,6 @@ def retry_chain(attempts: int = 3, use_default: bool = True) -> Spec:
 TEMPLATES: Dict[str, Callable[..., Spec]] = {f.__name__: f for f in [
     chain, rhombus, fan, mixed_modes, switch_basic, switch_deep, switch_nested, switch_shared_case,
     switch_case_also_input, oneof_basic, oneof_depth, oneof_three, oneof_nested, oneof_sibling,
-    oneof_chained, oneof_with_switch, oneof_shared_dep, oneof_diamond, rec_simple, rec_inner_start, rec_outside_reader,
-    rec_two_scopes, rec_with_switch, rec_with_oneof, rec_in_oneof, rec_nested, retry_sibling, retry_chain,
+    oneof_chained, oneof_with_switch, oneof_with_switch_deep, oneof_shared_dep, oneof_diamond, rec_simple, rec_inner_start, rec_outside_reader,
+    rec_two_scopes, rec_outside_reader_slow, rec_with_switch, rec_with_oneof, rec_in_oneof, rec_nested, retry_sibling, retry_chain,
 ]}
